@@ -130,16 +130,13 @@ theorem remoteTail_envok (pc4 : Pc) (d : Desc) (s' : SigState) (hb : EnvOk pc4) 
   rcases hb with hb | hb <;> simp [remoteTail, hb]
 
 theorem remoteTail_cases (pc4 : Pc) (d : Desc) (s' : SigState) :
-    remoteTail pc4 d s' = (pc4, .err .internal) ∨
     remoteTail pc4 d s' = ({ applyRemote pc4 d with rem := some d }, .err .internal) ∨
     remoteTail pc4 d s' = ({ applyRemote pc4 d with rem := some d, sig := s' }, .ok) := by
   unfold remoteTail
+  dsimp only
   split
   · exact Or.inl rfl
-  · dsimp only
-    split
-    · exact Or.inr (Or.inl rfl)
-    · exact Or.inr (Or.inr rfl)
+  · exact Or.inr rfl
 
 theorem fpChanged_congr (a b : Pc) (fp : Option Nat) (h1 : a.dtlsStarted = b.dtlsStarted)
     (h2 : a.remoteFp = b.remoteFp) : fpChanged a fp = fpChanged b fp := by
@@ -161,10 +158,7 @@ theorem tail_shape (pc1 X : Pc) (d : Desc) (s2 : SigState) (h1 : X.sig = pc1.sig
   have henv : EnvOk pc1 → EnvOk X := by
     intro h; unfold EnvOk at h ⊢; rw [h2.2.2.2.2, h2.2.2.1]; exact h
   obtain ⟨f1, f2, f3, f4, f5⟩ := h2
-  rcases remoteTail_cases X d s2 with hr | hr | hr
-  · right; right
-    refine ⟨_, hr, ?_, h1, f1, f2, f3, f4, f5⟩
-    intro he; rw [remoteTail_envok _ _ _ (henv he)] at hr; simp at hr
+  rcases remoteTail_cases X d s2 with hr | hr
   · right; right
     refine ⟨_, hr, ?_, by simpa using h1, by simpa [Pc.frame] using ⟨f1, f2, f3, f4, f5⟩⟩
     intro he; rw [remoteTail_envok _ _ _ (henv he)] at hr; simp at hr
@@ -185,8 +179,18 @@ theorem remoteAfterReinvite_shape (pc1 : Pc) (d : Desc) (fp : Option Nat) (u : B
       exact ⟨s2, _, ht, rfl, rfl, rfl, rfl, rfl, rfl, rfl, rfl⟩
     | false =>
       have hc2 : (pc1.dtlsStarted && pc1.remoteFp != fp) = false := by simpa [fpChanged] using hfc
-      simp only [Bool.false_eq_true, if_false, fpChanged, hc2]
-      exact tail_shape pc1 _ d s2 rfl ⟨rfl, rfl, rfl, rfl, rfl⟩ ht
+      simp only [Bool.not_false, Bool.true_and]
+      split
+      · rename_i hsr
+        simp only [Bool.and_eq_true, decide_eq_true_eq] at hsr
+        right; right
+        refine ⟨pc1, rfl, ?_, rfl, rfl, rfl, rfl, rfl, rfl⟩
+        intro he
+        rcases he with he | he
+        · rw [he] at hsr; exact absurd hsr.1.1 (by simp)
+        · rw [he] at hsr; exact absurd hsr.1.2 (by decide)
+      · simp only [Bool.false_eq_true, if_false, fpChanged, hc2]
+        exact tail_shape pc1 _ d s2 rfl ⟨rfl, rfl, rfl, rfl, rfl⟩ ht
 
 /-- the shapes `setRemote` can return (every environment): an early rejection with the connection
 untouched; success with the table's transition; or the socket layer's error out of the tail, with the
@@ -286,7 +290,11 @@ theorem createOffer_cases (pc : Pc) (hb : EnvOk pc) :
   · left; exact ⟨.invalidState, by simp [h1], Or.inl h1⟩
   · by_cases h2 : pc.trxs.isEmpty = true
     · left; refine ⟨.invalidState, by simp [h1, h2], Or.inr (by simpa using h2)⟩
-    · right; simp at h1; simp [h1, h2, hb.rtp, hb.srtp]
+    · right
+      simp at h1
+      have hbm : (pc.bindFails && (decide (pc.mode = .rtp) || decide (pc.mode = .srtp))) = false := by
+        rcases hb with hb | hb <;> simp [hb]
+      simp [h1, h2, hbm]
 
 theorem createAnswer_cases (pc : Pc) (hb : EnvOk pc) :
     (∃ e, createAnswer pc = (pc, .err e)) ∨
@@ -316,10 +324,7 @@ theorem createOffer_frame (pc : Pc) :
   · simp
   · split
     · simp
-    · split
-      · simp
-      · dsimp only
-        split <;> simp
+    · split <;> simp
 
 theorem createOffer_ok_stable (pc : Pc) (h : (createOffer pc).2 = .ok) : pc.sig = .stable := by
   unfold createOffer at h
@@ -352,19 +357,22 @@ theorem createAnswer_ok_haveRemoteOffer (pc : Pc) (h : (createAnswer pc).2 = .ok
   · simp [h1] at h
   · simpa using h1
 
-theorem createOffer_err_general (pc : Pc) (e : Err) (h : (createOffer pc).2 = .err e) :
-    createOffer pc = (pc, .err e) ∨ e = .internal := by
+/-- `create_offer` is atomic in EVERY environment and transport mode: a rejected call returns the
+connection exactly as it was (since the round-2 / round-3 fixes the direct modes bind before any mid is
+assigned) -/
+theorem createOffer_err_atomic (pc : Pc) (e : Err) (h : (createOffer pc).2 = .err e) :
+    createOffer pc = (pc, .err e) := by
   unfold createOffer at h ⊢
   split at h
-  · rename_i h1; simp at h; subst h; left; simp [h1]
+  · rename_i h1; simp at h; subst h; simp [h1]
   · split at h
-    · simp at h; subst h; left; simp [*]
+    · simp at h; subst h; simp [*]
     · split at h
-      · simp at h; right; exact h.symm
-      · dsimp only at h
-        split at h
-        · simp at h; right; exact h.symm
-        · simp at h
+      · simp at h; subst h; simp [*]
+      · simp at h
+
+theorem createOffer_err_general (pc : Pc) (e : Err) (h : (createOffer pc).2 = .err e) :
+    createOffer pc = (pc, .err e) ∨ e = .internal := Or.inl (createOffer_err_atomic pc e h)
 
 theorem createAnswer_err_general (pc : Pc) (e : Err) (h : (createAnswer pc).2 = .err e) :
     createAnswer pc = (pc, .err e) ∨ e = .internal := by
@@ -516,8 +524,7 @@ theorem applyRemote_trxs_congr (a b : Pc) (d : Desc) (h : a.trxs = b.trxs) :
 
 theorem remoteTail_ok_trxs (X : Pc) (d : Desc) (s2 : SigState) (h : (remoteTail X d s2).2 = .ok) :
     (remoteTail X d s2).1.trxs = (applyRemote X d).trxs := by
-  rcases remoteTail_cases X d s2 with hr | hr | hr
-  · rw [hr] at h; cases h
+  rcases remoteTail_cases X d s2 with hr | hr
   · rw [hr] at h; cases h
   · rw [hr]
 
@@ -544,8 +551,12 @@ theorem setRemote_first_trxs (pc : Pc) (d : Desc) (hrem : pc.rem = none) (h : (s
         | ok s2 =>
           simp only [ht, hrem, Option.isSome_none, Bool.false_and, Bool.false_eq_true, if_false] at h ⊢
           have hc2 : (pc.dtlsStarted && pc.remoteFp != fp) = false := by simpa [fpChanged] using hc
-          simp only [fpChanged, hc2, Bool.false_eq_true, if_false] at h ⊢
-          rw [remoteTail_ok_trxs _ _ _ h]
-          exact applyRemote_trxs_congr _ _ _ rfl
+          split at h
+          · cases h
+          · rename_i hs
+            rw [if_neg hs]
+            simp only [fpChanged, hc2, Bool.false_eq_true, if_false] at h ⊢
+            rw [remoteTail_ok_trxs _ _ _ h]
+            exact applyRemote_trxs_congr _ _ _ rfl
 
 end RtcModel.Jsep
